@@ -168,11 +168,11 @@ def sector_min(H, L, nocc):
     return float(np.linalg.eigvalsh(H[np.ix_(idx, idx)])[0])
 
 
-def oracle_vqe(ctx, L, nocc, x0, exc="s", maxiter=120):
+def oracle_vqe(ctx, L, nocc, x0, exc="s", maxiter=120, phase=0.0):
     """optimiser energies never undercut the lowest eigenvalue in the particle sector (a test)"""
     import qib
     import qib.algorithms.vqe.vqe as vmod
-    inp = {"kind": "vqe", "L": L, "nocc": nocc, "x0": [float(v) for v in x0], "exc": exc}
+    inp = {"kind": "vqe", "L": L, "nocc": nocc, "x0": [float(v) for v in x0], "exc": exc, "phase": phase}
     field = mk_field(L)
     ham = qib.operator.FermiHubbardHamiltonian(field, -1., 2., False)
     pauli_ham = qib.transform.jordan_wigner_encode_field_operator(ham.as_field_operator())
@@ -180,6 +180,8 @@ def oracle_vqe(ctx, L, nocc, x0, exc="s", maxiter=120):
     state = np.array([1.0])
     for j in range(L):        # first nocc sites occupied, site 0 most significant
         state = np.kron(state, np.array([0., 1.]) if j < nocc else np.array([1., 0.]))
+    if phase:
+        state = np.exp(1j * phase) * state          # a complex initial state (same ray)
     emin = sector_min(H, L, nocc)
     log = []
     orig = vmod.measure_expectation_statevector
@@ -205,6 +207,37 @@ def oracle_vqe(ctx, L, nocc, x0, exc="s", maxiter=120):
     return emin, lo, len(energies)
 
 
+def oracle_landscape(ctx, L, nocc, exc, params, amps):
+    """energy_func of VQE.run evaluated directly (no optimiser): for ANY parameter vector and any complex initial
+    state inside the nocc-particle sector, the energy is real and lies in the spectral range of the sector"""
+    import qib
+    from qib.algorithms.vqe.vqe import measure_expectation_statevector
+    inp = {"kind": "landscape", "L": L, "nocc": nocc, "exc": exc, "params": [float(p) for p in params], "amps": amps}
+    field = mk_field(L)
+    ham = qib.operator.FermiHubbardHamiltonian(field, -1., 2., False)
+    pauli_ham = qib.transform.jordan_wigner_encode_field_operator(ham.as_field_operator())
+    H = pauli_ham.as_matrix().toarray()
+    idx = [i for i in range(2 ** L) if bin(i).count("1") == nocc]
+    w = np.linalg.eigvalsh(H[np.ix_(idx, idx)])
+    init = np.zeros(2 ** L, dtype=complex)
+    for i, a in zip(idx, amps):
+        init[i] = complex(*a)
+    init = init / np.linalg.norm(init)
+    ans = qib.algorithms.vqe.ansatz.qUCC(field, excitations=exc, embedding="jordan_wigner")
+    state = ans.as_matrix(np.array(params, dtype=float)).toarray() @ init          # as in VQE.run.energy_func
+    e = complex(measure_expectation_statevector(pauli_ham, state))
+    if abs(e.imag) > 1e-8:
+        ctx.fail("VQE: energy of a Hermitian Hamiltonian not real", inp, "imaginary part 0", repr(e))
+    if e.real < w[0] - 1e-8:
+        ctx.fail("VQE: an energy of the ansatz state undercuts the lowest eigenvalue of the particle sector", inp, float(w[0]), e.real)
+    if e.real > w[-1] + 1e-8:
+        ctx.fail("VQE: an energy of the ansatz state exceeds the highest eigenvalue of the particle sector", inp, float(w[-1]), e.real)
+    leak = np.linalg.norm(np.delete(state, idx))
+    if leak > 1e-8:
+        ctx.fail("VQE: the ansatz state leaves the particle sector of the initial state", inp, 0.0, float(leak))
+    return e.real, float(w[0]), float(w[-1])
+
+
 # ------------------------------------------------------------------------------ run
 def qi_list(v):
     return ct.lst([ct.qi(complex(c)) for c in v])
@@ -222,11 +255,13 @@ def run(ctx):
         "commutes with, (B3) Rayleigh/variational principle. scipy.linalg.expm = matrix exponential")
     ctx.assumes.append("C20 is PARTIAL in the clauses 'within the spectral range' and 'never undercuts the lowest eigenvalue of "
                        "the sector': they follow from the proved facts only together with B1-B3; they are tested numerically")
-    nmax = 4 if ctx.thorough else 3
+    nmax = 5 if ctx.thorough else 3
     ctx.rules.append("expectation: Pauli operators with 1-5 random strings on 1..%d qubits with complex dyadic weights (Hermitian "
-                     "and not), random complex dyadic states, plus <Y> on (1,i)/sqrt2; cluster matrices: singles L<=4, doubles L<=3 "
-                     "with dyadic parameters; qUCC s/d/sd with random real parameters, L=2..3 (4 for s); tiny VQE runs. "
-                     "non-trivial = state with a non-zero imaginary part, or a cluster/qUCC case with >= 2 non-zero parameters" % nmax)
+                     "and not; identity-only, single non-Hermitian string, zero weight), random complex dyadic states (20%% real), plus <Y> on (1,i)/sqrt2; "
+                     "cluster matrices: singles L<=%d, doubles L<=%d with dyadic parameters; qUCC s/d/sd with random real parameters, "
+                     "L=2..3 (4 for s%s); tiny VQE runs (s, d, sd; real and complex-phase initial state). "
+                     "non-trivial = state with a non-zero imaginary part, or a cluster/qUCC case with >= 2 non-zero parameters, or a VQE run; "
+                     "distinct by the full input" % (nmax, 5 if ctx.thorough else 4, 4 if ctx.thorough else 3, " and d" if ctx.thorough else ""))
     ctx.lib(["VQE/VqeCheck", "VQE/VqeProofs"])
     ok_tr = ctx.translate("GenVqe", gen.generate)
     if ok_tr:
@@ -237,11 +272,16 @@ def run(ctx):
     rng = ctx.rng
     cases = []
 
+    sampled = set()
+
     def add(term, desc, nontrivial=True):
         cases.append((term, desc))
         if nontrivial:
             ctx.nontriv(desc)
-        ctx.sample(desc)
+            cat = (desc["op"], desc.get("n", desc.get("L")))
+            if desc["op"] not in [c[0] for c in sampled] or (len(sampled) < 4 and cat not in sampled and cat[1] >= 2):
+                sampled.add(cat)
+                ctx.sample(desc)
 
     def dy(den=4, lim=8):
         return rng.randint(-lim, lim) / den
@@ -250,8 +290,12 @@ def run(ctx):
     # ---------------------------------------------------------------- expectation values
     exps = [(1, [([1], [1], 0, [1.0, 0.0])], [[2 ** -0.5, 0.0], [0.0, 2 ** -0.5]]),      # <Y> on (1,i)/sqrt2
             (1, [([1], [0], 0, [1.0, 0.0])], [[1.0, 1.0], [0.0, 0.0]]),                  # <Z> on (1+i, 0)
-            (1, [([1], [1], 0, [1.0, 0.0])], [[1.0, 0.0], [0.0, 1.0]])]                  # <Y> on (1, i)
-    for _ in range(400 if ctx.thorough else 90):
+            (1, [([1], [1], 0, [1.0, 0.0])], [[1.0, 0.0], [0.0, 1.0]]),                  # <Y> on (1, i)
+            (2, [([0, 0], [0, 0], 0, [1.5, 0.0])], [[0.5, 0.25], [0.0, -1.0], [0.75, 0.0], [0.0, 0.0]]),   # 1.5 * identity
+            (2, [([1, 0], [1, 1], 1, [1.0, 0.0])], [[0.5, 0.25], [0.0, -1.0], [0.75, 0.0], [0.25, 0.25]]),  # -i Y(x)X : not Hermitian
+            (1, [([1], [1], 0, [0.0, 0.0]), ([0], [1], 0, [0.5, 0.0])], [[0.0, 1.0], [1.0, 0.0]]),     # zero weight + X
+            (2, [([1, 1], [1, 0], 0, [0.0, 1.0])], [[0.5, 0.5], [0.0, 0.0], [0.0, 0.0], [0.25, -0.5]])]    # i * YZ : anti-Hermitian
+    for _ in range(1500 if ctx.thorough else 120):
         n = rng.randint(1, nmax)
         herm = rng.random() < 0.7
         strings = []
@@ -294,13 +338,13 @@ def run(ctx):
     ctx.log("start cluster")
     # ---------------------------------------------------------------- cluster operator matrices (exact)
     clus = []
-    for L in range(1, (4 if ctx.thorough else 3) + 1):
+    for L in range(1, (5 if ctx.thorough else 3) + 1):
         for kinds in ([True, False], [True, True, False, False]):
-            if len(kinds) == 4 and L > 3:
+            if len(kinds) == 4 and L > (4 if ctx.thorough else 3):
                 continue
-            for rep in range(3 if ctx.thorough else 2):
+            for rep in range(4 if ctx.thorough else 2):
                 cnt = L ** len(kinds)
-                dens = 1.0 if cnt <= 16 else 0.35
+                dens = 1.0 if cnt <= 16 else (0.35 if cnt <= 81 else 0.08)
                 params = [dy(8, 12) if rng.random() < dens else 0.0 for _ in range(cnt)]
                 clus.append((L, kinds, params))
     if not ctx.thorough:
@@ -325,8 +369,8 @@ def run(ctx):
     struct_bad = []
     nstruct = 0
     for exc in ("s", "d", "sd"):
-        for L in ((2, 3, 4) if exc == "s" else ((2, 3) if ctx.thorough or exc == "d" else (2, 3))):
-            for rep in range(4 if ctx.thorough else 2):
+        for L in ((2, 3, 4, 5) if (exc == "s" and ctx.thorough) else ((2, 3, 4) if (exc == "s" or (ctx.thorough and exc == "d")) else (2, 3))):
+            for rep in range((10 if L <= 3 else 3) if ctx.thorough else 2):
                 cnt = sum(L ** len(k) for k in KINDS[exc])
                 params = [rng.uniform(-1.5, 1.5) if rng.random() < 0.8 else 0.0 for _ in range(cnt)]
                 ctx.count("qucc_%s_L=%d" % (exc, L))
@@ -358,21 +402,61 @@ def run(ctx):
 
     ctx.log("start vqe")
     # ---------------------------------------------------------------- optimiser energies (a test, not a proof)
-    for L, nocc in ((2, 1), (3, 1), (3, 2)) + (((4, 2),) if ctx.thorough else ()):
-        x0 = [rng.uniform(0, 1) for _ in range(L * L)]
-        ctx.count("vqe_L=%d" % L)
+    # (real initial states only: with a complex one scipy's COBYLA rejects the complex-typed energy, see notes/C20.md;
+    #  complex initial states go through oracle_landscape below)
+    runs = [(2, 1, "s", 0.0), (3, 1, "s", 0.0), (3, 2, "s", 0.0), (2, 1, "sd", 0.0), (3, 2, "d", 0.0)]
+    if ctx.thorough:
+        runs += [(4, 2, "s", 0.0), (4, 1, "s", 0.0), (3, 1, "sd", 0.0), (3, 2, "sd", 0.0), (4, 2, "d", 0.0), (2, 2, "d", 0.0),
+                 (4, 3, "s", 0.0), (2, 0, "s", 0.0), (3, 3, "sd", 0.0)]
+    nvqe = 0
+    for L, nocc, exc, phase in runs:
+        x0 = [rng.uniform(0, 1) for _ in range(sum(L ** len(k) for k in KINDS[exc]))]
+        ctx.count("vqe_%s_L=%d" % (exc, L))
         try:
-            emin, lo, nev = oracle_vqe(ctx, L, nocc, x0)
-            ctx.nontriv({"kind": "vqe", "L": L, "nocc": nocc, "evaluations": nev})
-            ctx.sample({"kind": "vqe", "L": L, "nocc": nocc, "sector_min": emin, "lowest_reported": lo, "evaluations": nev})
+            emin, lo, nev = oracle_vqe(ctx, L, nocc, x0, exc, maxiter=(200 if ctx.thorough else 120), phase=phase)
+            ctx.evaluations += 1
+            ctx.nontriv({"kind": "vqe", "L": L, "nocc": nocc, "exc": exc, "phase": phase, "evaluations": nev})
+            if nvqe < 2:
+                ctx.sample({"kind": "vqe", "L": L, "nocc": nocc, "exc": exc, "phase": phase, "sector_min": emin,
+                            "lowest_reported": lo, "evaluations": nev})
+            nvqe += 1
         except Exception as e:
-            ctx.fail("VQE:exception:" + type(e).__name__, {"kind": "vqe", "L": L, "nocc": nocc, "x0": x0, "exc": "s"}, "a result", repr(e))
+            ctx.fail("VQE:exception:" + type(e).__name__, {"kind": "vqe", "L": L, "nocc": nocc, "x0": x0, "exc": exc, "phase": phase},
+                     "a result", repr(e))
+
+    ctx.log("start landscape")
+    # ---------------------------------------------------------------- energies of the ansatz state, any parameters, complex initial states
+    nland = 0
+    for exc in ("s", "d", "sd"):
+        for L in ((2, 3, 4) if (exc == "s" or ctx.thorough) and exc != "sd" else (2, 3)):
+            for nocc in range(0, L + 1):
+                for rep in range(6 if ctx.thorough else 2):
+                    cnt = sum(L ** len(k) for k in KINDS[exc])
+                    scale = rng.choice([0.3, 1.5, 6.0])
+                    params = [rng.uniform(-scale, scale) for _ in range(cnt)]
+                    nsec = len([i for i in range(2 ** L) if bin(i).count("1") == nocc])
+                    amps = [[rng.gauss(0, 1), rng.gauss(0, 1)] for _ in range(nsec)]
+                    ctx.count("landscape_%s_L=%d" % (exc, L))
+                    desc = {"kind": "landscape", "L": L, "nocc": nocc, "exc": exc, "rep": rep, "first": params[:2]}
+                    try:
+                        e, lo, hi = oracle_landscape(ctx, L, nocc, exc, params, amps)
+                    except Exception as ex:
+                        ctx.fail("VQE:exception:" + type(ex).__name__, {"kind": "landscape", "L": L, "nocc": nocc, "exc": exc,
+                                                                        "params": params, "amps": amps}, "an energy", repr(ex))
+                        continue
+                    ctx.evaluations += 1
+                    ctx.nontriv(desc)
+                    if nland == 7:
+                        ctx.sample(dict(desc, energy=e, sector_range=[lo, hi]))
+                    nland += 1
 
     ctx.log("start coq cases")
     if ok_tr:
         dis = ctx.cases("vqe", HEADER, cases, fn="bad_cases gen_expect")
         for i, d in dis[:5]:
             ctx.log("model/impl disagree on", d)
+        if ctx.thorough and not ctx.broken:
+            ctx.coqchk()
 
 
 def replay(ctx, data):
@@ -385,7 +469,9 @@ def replay(ctx, data):
     elif k == "qucc":
         oracle_qucc(ctx, inp["L"], inp["exc"], inp["params"])
     elif k == "vqe":
-        oracle_vqe(ctx, inp["L"], inp["nocc"], inp["x0"], inp.get("exc", "s"))
+        oracle_vqe(ctx, inp["L"], inp["nocc"], inp["x0"], inp.get("exc", "s"), phase=inp.get("phase", 0.0))
+    elif k == "landscape":
+        oracle_landscape(ctx, inp["L"], inp["nocc"], inp["exc"], inp["params"], inp["amps"])
     elif k == "cluster":
         T = lib_cluster(inp["L"], inp["kinds"], inp["params"])
         if np.abs(T - ref_cluster(inp["L"], inp["kinds"], inp["params"])).max() > 1e-12:
